@@ -18,7 +18,26 @@
 
 #define REGION 2048
 #define NREG 6
-static uint8_t pool[NREG][REGION] __attribute__((aligned(64)));
+/* each region is the start of a mapping of its own, so that a region holding a pure input (key, tweak, counter, data
+ * that is not also the output) can be made read-only for the duration of the library call: the caller's inputs may
+ * be string literals or const tables, and a library that writes to them - even to put the old bytes back - faults */
+#include <sys/mman.h>
+#define MAPSZ 8192
+static uint8_t *pool[NREG];
+static int is_input[NREG];
+static void pool_init(void)
+{
+    int r;
+    for (r = 0; r < NREG; ++r) {
+        pool[r] = mmap(NULL, MAPSZ, PROT_READ | PROT_WRITE, MAP_PRIVATE | MAP_ANONYMOUS, -1, 0);
+        if (pool[r] == MAP_FAILED) engine_error("mmap of a buffer region failed");
+    }
+}
+static void inputs_readonly(int on)
+{
+    int r;
+    for (r = 0; r < NREG; ++r) if (is_input[r]) mprotect(pool[r], MAPSZ, on ? PROT_READ : PROT_READ | PROT_WRITE);
+}
 static uint8_t KEY[48], TWEAK[16], CTRV[16], DATA[1024], TW[1024];
 static unsigned long last_errs;
 static const char *cur_fn = "";
@@ -32,6 +51,7 @@ static char cur_case[200];
 static uint8_t *place(int r, int a, size_t n, const uint8_t *fill)
 {
     uint8_t *base = pool[r], *p = base + 256 + a;
+    is_input[r] = fill != NULL;     /* cleared by the caller when the same buffer is also written (in-place, overlap) */
     VALGRIND_MAKE_MEM_UNDEFINED(base, REGION);
     memset(base, 0xC3, REGION);
     if (fill) memcpy(p, fill, n); else memset(p, 0xEE, n);
@@ -67,7 +87,7 @@ static void fail(const char *cls, const char *fmt, ...)
  * in the restarted child */
 /* (a block, not do-while: a case whose call crashed in an earlier incarnation of the child is
  * skipped as a whole - the crash is already reported and there is no result to compare) */
-#define GUARDED(call) { char sb_[120]; snprintf(sb_, sizeof(sb_), "C09/%s", cur_fn); if (guard_enter(sb_, cur_case)) continue; call; guard_leave(); }
+#define GUARDED(call) { char sb_[120]; snprintf(sb_, sizeof(sb_), "C09/%s", cur_fn); if (guard_enter(sb_, cur_case)) continue; inputs_readonly(1); call; inputs_readonly(0); guard_leave(); }
 
 /* after a call: memcheck errors, canaries */
 static void after_call(int nreg, const int *regs, uint8_t *const *ptrs, const size_t *lens)
@@ -125,7 +145,7 @@ static void run_single(void)
             uint8_t img[40], *buf, *in, *out; int regs1[1] = {0}; uint8_t *p1[1]; size_t l1[1];
             memset(img, 0x99, sizeof(img));
             memcpy(img + (d < 0 ? -d : 0), DATA, bs);
-            buf = place(0, ai, span, img);
+            buf = place(0, ai, span, img); is_input[0] = 0;
             in = buf + (d < 0 ? -d : 0); out = buf + (d > 0 ? d : 0);
             snprintf(cur_case, sizeof(cur_case), "c09 overlap %d out=in%+d align+%d", f, d, ai);
             if (CASE_SKIP()) continue;
@@ -133,6 +153,23 @@ static void run_single(void)
             p1[0] = buf; l1[0] = span;
             after_call(1, regs1, p1, l1);
             if (memcmp(out, ref, bs) != 0) fail("overlap", "output overlapping the input at offset %+d gives a different result", d);
+            distinct_add_u64(fnv1a(cur_case, strlen(cur_case), 9));
+        }
+        /* the per-call tweak is a second input: it may be the same memory as the input block (a block used as its own
+         * tweak), with the output elsewhere or, as the documentation allows for input and output, in place */
+        if (f == SB_MT) for (ai = 0; ai < 32; ai += 3) for (d = 0; d < 2; ++d) {
+            uint8_t ref2[8], c1[8], c2[8], *buf, *out; int regs2[2] = {0, 1}; uint8_t *p2[2]; size_t l2[2];
+            memcpy(c1, DATA, 8); memcpy(c2, DATA, 8);
+            mantis_ecb_crypt_tweaked(ref2, c1, c2, &km);
+            buf = place(0, ai, 8, DATA);
+            if (d) { out = buf; is_input[0] = 0; } else out = place(1, (ai * 5 + 3) & 31, 8, NULL);
+            snprintf(cur_case, sizeof(cur_case), "c09 tweak-is-input align+%d %s", ai, d ? "in-place" : "");
+            if (CASE_SKIP()) continue;
+            GUARDED(LIB(mantis_ecb_crypt_tweaked(out, buf, buf, &km)));
+            p2[0] = buf; p2[1] = out; l2[0] = 8; l2[1] = 8;
+            after_call(d ? 1 : 2, regs2, p2, l2);
+            memcpy(got, out, 8);
+            if (memcmp(got, ref2, 8) != 0) fail("tweak-aliases-input", "the block used as its own tweak (%s) gives a result different from the same bytes in separate buffers", d ? "in place" : "output elsewhere");
             distinct_add_u64(fnv1a(cur_case, strlen(cur_case), 9));
         }
     }
@@ -269,7 +306,7 @@ static void run_bulk(void)
                 snprintf(cur_case, sizeof(cur_case), "c09 ctr %s %s len=%zu in+%d out+%d %s", cipher_name((Cipher)c), be_name(be), n, ai, ao, mode == 2 ? "aliased" : "");
                 if (CASE_SKIP()) continue;
                 in = place(0, ai, n, DATA);
-                if (mode == 2) out = in; else out = place(1, ao, n, NULL);
+                if (mode == 2) { out = in; is_input[0] = 0; } else out = place(1, ao, n, NULL);
                 GUARDED(ctr_encrypt((Cipher)c, &o, out, in, n));
                 ptrs[0] = in; ptrs[1] = out; ls[0] = n; ls[1] = n;
                 after_call(mode == 2 ? 1 : 2, regs, ptrs, ls);
@@ -303,7 +340,7 @@ static void run_bulk(void)
                     snprintf(cur_case, sizeof(cur_case), "c09 ctr-second %s %s first=%zu len=%zu in+%d out+%d %s", cipher_name((Cipher)c), be_name(be), n1, n, PLACE[pl][0], PLACE[pl][1], mode ? "aliased" : "");
                     if (CASE_SKIP()) continue;
                     in = place(0, PLACE[pl][0], n, DATA + n1);
-                    out = mode ? in : place(1, PLACE[pl][1], n, NULL);
+                    out = mode ? in : place(1, PLACE[pl][1], n, NULL); if (mode) is_input[0] = 0;
                     GUARDED(ctr_encrypt((Cipher)c, &o, out, in, n));
                     ptrs[0] = in; ptrs[1] = out; ls[0] = n; ls[1] = n;
                     after_call(mode ? 1 : 2, regs, ptrs, ls);
@@ -316,7 +353,7 @@ static void run_bulk(void)
         }
         /* parallel ECB */
         {
-            int pl[12], np = 0, dir;
+            int pl[12], np = 0, dir, twin;
             pl[np++] = 0; pl[np++] = bs; pl[np++] = pb - bs; pl[np++] = pb; pl[np++] = pb + bs; pl[np++] = 2 * pb + bs; pl[np++] = 3 * pb + 2 * bs;
             pl[np++] = pb + pb / 2; pl[np++] = 2 * pb + pb - bs;        /* a tail of half a batch, and of a batch less one block */
             for (li = 0; li < np; ++li) for (dir = 0; dir < 2; ++dir) for (mode = 0; mode < 2; ++mode) { if ((job_ctr++) % g_opts.nshards != g_opts.shard) continue; for (ai = 0; ai < 32; ++ai) for (ao = 0; ao < 32; ++ao) {
@@ -329,12 +366,15 @@ static void run_bulk(void)
                 par_init((Cipher)c, be, &o); par_set_key((Cipher)c, &o, KEY, c == CK_MANTIS ? 16 : (unsigned)bs * 3, 8, MANTIS_ENCRYPT);
                 par_crypt((Cipher)c, &o, ref, DATA, TW, n, dir);
                 cur_fn = "parallel_ecb_crypt";
-                snprintf(cur_case, sizeof(cur_case), "c09 par %s %s len=%zu dir=%d in+%d out+%d %s", cipher_name((Cipher)c), be_name(be), n, dir, ai, ao, mode ? "aliased" : "");
+                /* every seventh placement of a Mantis call: the per-block tweak array is the input array itself (two inputs may share memory) */
+                twin = c == CK_MANTIS && ((ai + ao) % 7) == 3;
+                snprintf(cur_case, sizeof(cur_case), "c09 par %s %s len=%zu dir=%d in+%d out+%d %s%s", cipher_name((Cipher)c), be_name(be), n, dir, ai, ao, mode ? "aliased" : "", twin ? " tweaks=input" : "");
                 if (CASE_SKIP()) continue;
                 in = place(0, ai, n, DATA);
-                out = mode ? in : place(1, ao, n, NULL);
+                out = mode ? in : place(1, ao, n, NULL); if (mode) is_input[0] = 0;
                 tw = place(2, (ai * 5 + ao) & 31, c == CK_MANTIS ? n : 1, TW);
-                GUARDED(par_crypt((Cipher)c, &o, out, in, tw, n, dir));
+                if (twin) { static uint8_t c1[1024], c2[1024]; memcpy(c1, DATA, n); memcpy(c2, DATA, n); par_crypt((Cipher)c, &o, ref, c1, c2, n, dir); }
+                GUARDED(par_crypt((Cipher)c, &o, out, in, twin ? in : tw, n, dir));
                 ptrs[0] = in; ptrs[1] = out; ptrs[2] = tw; ls[0] = n; ls[1] = n; ls[2] = c == CK_MANTIS ? n : 1;
                 if (mode) { ptrs[1] = tw; ls[1] = ls[2]; regs[1] = 2; after_call(2, regs, ptrs, ls); } else after_call(3, regs, ptrs, ls);
                 memcpy(got, out, n);
@@ -356,6 +396,7 @@ static void __attribute__((noinline)) ctl_copy(uint8_t *dst, const uint8_t *src,
 
 static void body(void)
 {
+    pool_init();
     lcg_fill(KEY, 48, 1); lcg_fill(TWEAK, 16, 2); lcg_fill(CTRV, 16, 3); memset(CTRV, 0xFF, 9); lcg_fill(DATA, sizeof(DATA), 4); lcg_fill(TW, sizeof(TW), 5);
     if (RUNNING_ON_VALGRIND) {
         uint8_t *in = place(0, 3, 10, DATA), *out = place(1, 0, 10, NULL); unsigned long e0 = VALGRIND_COUNT_ERRORS;
